@@ -116,6 +116,9 @@ func genKnobs(t *core.Tape, kind Kind) simhttp.Knobs {
 	// net/http's servers keep a small answer to themselves until the handler
 	// flushes or returns (and then give it a Content-Length)
 	k.HoldAnswer = t.Bool(1, 2, "holdanswer")
+	// an HTTPClient that is an in-memory fake: its hand-built Response says
+	// nothing true about the body's length
+	k.HandBuiltResp = t.Bool(1, 8, "handbuilt.response")
 	if k.HTTP2 {
 		k.Lazy = t.Bool(1, 4, "lazy")
 		if t.Bool(1, 2, "postaccept") {
